@@ -176,7 +176,9 @@ impl Bmi2StringProcessor {
     pub fn wildcard_match_bmi2(&self, text: &str, pattern: &str) -> bool {
         #[cfg(target_arch = "x86_64")]
         {
-            if self.capabilities.has_bmi2 && text.len() >= 8 && pattern.len() >= 4 {
+            if self.capabilities.has_bmi2 && text.len() >= 8 && pattern.len() >= 4
+                // the byte kernel does not backtrack and counts bytes, not characters
+                && !pattern.contains('*') && text.is_ascii() && pattern.is_ascii() {
                 return unsafe { self.wildcard_match_bmi2_impl(text.as_bytes(), pattern.as_bytes()) };
             }
         }
@@ -590,7 +592,8 @@ impl Bmi2StringProcessor {
             pattern_idx += 1;
         }
 
-        pattern_idx == pattern.len()
+        // both the pattern and the text must be exhausted
+        pattern_idx == pattern.len() && text_idx == text.len()
     }
 
     #[cfg(target_arch = "x86_64")]
